@@ -125,7 +125,9 @@ theorem ext_recordPattern (cfg : Cfg) (sy : Sym) (e : Node) (s : St) : Ext s (re
   simp only
   split
   · exact ext_addErrs s _
-  · exact Ext.trans (ext_addErrs s _) (ext_of_errors_eq rfl)
+  · split
+    · exact Ext.trans (ext_addErrs s _) (ext_err _ _ _)
+    · exact Ext.trans (ext_addErrs s _) (ext_of_errors_eq rfl)
 
 theorem ext_closeDeco (sy : Sym) (w : Option Pos) (s : St) : Ext s (closeDeco sy w s) := by
   unfold closeDeco
